@@ -356,6 +356,18 @@ def _export_jobs(jobs, path, copytree):
     # Determine export path for each job.
     paths = {job.path: path_function(job) for job in jobs}
 
+    # Exported data must be located within the target.
+    for dst in paths.values():
+        normalized = os.path.normpath(dst)
+        if (
+            os.path.isabs(normalized)
+            or normalized == os.pardir
+            or normalized.startswith(os.pardir + os.path.sep)
+        ):
+            raise RuntimeError(
+                f"The path '{dst}' is not located within the export target."
+            )
+
     # Check leaf/node consistency
     _check_directory_structure_validity(paths.values())
 
